@@ -184,6 +184,7 @@ structure State where
   reopened : Bool := false                     -- ghost: a restart gave a finished node a new fork
   full : Bool := false                         -- `Config.FullStageReset` (constant of a run)
   wipedAtLoad : List Nat := []                 -- nodes whose state was Failed or Running right after the last re-attach
+  alive : List Obj := []                       -- ghost: job objects whose submitted job has neither ended nor died
   deriving Repr, Inhabited
 
 def State.kind (s : State) (n : Nat) : Kind := ((s.nodes[n]?).map (·.kind)).getD .pipeline
@@ -322,7 +323,11 @@ def allChunksComplete (s : State) (n f : Nat) : Bool :=
 def mrpWriteOk (s : State) (o : Obj) (x : Sentinel) : Bool :=
   match x, o.r with
   | .errors, .fork => !fmDone s o.n o.f
-  | .errors, _ => true
+  -- mrp fails a job object only while its fork is unfinished (heartbeat / queue query for a queued or
+  -- running job, `_stage_defs` parse in `doChunks`, `Chunk.verifyOutput` at the start of `doJoin`,
+  -- reading the join's `_outs` in `doComplete`); split and chunks only before the join is submitted
+  | .errors, .join => !fmDone s o.n o.f
+  | .errors, _ => !fmDone s o.n o.f && s.st ⟨o.n, o.f, .join⟩ == none
   | .complete, .split =>
     s.phase == .normal && s.kind o.n == .stage && s.cachedOf o.n == .running &&
     forkState s o.n o.f == .ready
@@ -370,8 +375,12 @@ def resetOk (s : State) (o : Obj) : Bool :=
   if s.full then s.wipedAtLoad.contains o.n
   else
     o.r.isJob &&
-    (s.dst o == some .failed || s.dst o == some .queued || s.dst o == some .running ||
-     (s.m o).disk.queued)
+    (s.dst o == some .failed || s.dst o == some .queued ||
+     -- `restartLocal`: a running job is reset only if its recorded pid is dead
+     (s.dst o == some .running && !s.alive.contains o) ||
+     -- `restartQueuedLocal`: `_queued_locally` is still there; a job that nevertheless recorded its
+     -- completion only loses the sentinel (the branch added by the repair 23063ab)
+     ((s.m o).disk.queued && s.dst o != some .complete))
 
 def allFresh (s : State) : Bool :=
   (List.range s.nodes.length).all fun n => s.cachedOf n == nodeState s n
@@ -402,15 +411,23 @@ def guards (s : State) : Ev → List (String × Bool)
        ("chunks-before-split-complete",
          s.phase != Phase.normal ||
           (s.nch n f == 0 && 0 < k && s.cachedOf n == .running && !fmDone s n f &&
-           s.st ⟨n, f, .split⟩ == some .complete && s.st ⟨n, f, .join⟩ == none))]
+           s.st ⟨n, f, .split⟩ == some .complete && s.st ⟨n, f, .join⟩ == none)),
+       -- re-attaching (`NewFork` re-reads `_stage_defs`; a wiped stage has no chunks): chunk objects are
+       -- only dropped when nothing is left in their directories, and only appear before the join exists
+       ("chunks-redefined-at-reattach",
+         s.phase == Phase.normal ||
+          (((List.range (s.nch n f)).all fun i => decide (i < k) || (s.m ⟨n, f, .chunk i⟩).disk == {}) &&
+           (k ≤ s.nch n f || (!(s.m ⟨n, f, .join⟩).disk.jobinfo && !(s.m ⟨n, f, .join⟩).disk.complete))))]
   | .launch o => [("launch-not-enabled", launchOk s o)]
-  | .joblog o => [("not-a-job", o.r.isJob), ("not-launched", (s.m o).disk.jobinfo)]
+  | .joblog o => [("not-a-job", o.r.isJob), ("not-launched", (s.m o).disk.jobinfo),
+                  ("job-dead", s.alive.contains o)]
   | .jobend o x =>
       [("not-a-job", o.r.isJob), ("bad-outcome", x == .complete || x == .errors || x == .assert),
        ("not-launched", (s.m o).disk.jobinfo), ("not-started", (s.m o).disk.log),
-       ("already-ended", !(s.m o).disk.complete && !(s.m o).disk.assert)]
+       ("already-ended", !(s.m o).disk.complete && !(s.m o).disk.assert),
+       ("job-dead", s.alive.contains o)]
   | .silentfail o => [("mrp-dead", s.phase != Phase.crashed), ("not-a-job", o.r.isJob),
-                      ("not-launched", (s.m o).disk.jobinfo)]
+                      ("not-launched", (s.m o).disk.jobinfo), ("job-dead", s.alive.contains o)]
   | .refresh => [("mrp-dead", s.phase != Phase.crashed),
                  ("stale-node-state-after-load", s.phase != Phase.loading || allFresh s)]
   | .stepend => []
@@ -450,20 +467,22 @@ def apply (s : State) : Ev → State
   | .mkchunks n f k => { s with nchunks := aset s.nchunks (n, f) k }
   | .launch o =>
       { s.updMeta o (fun m => put .queuedLocally (put .jobinfo m)) with
-        launches := (o, s.inc) :: s.launches }
+        launches := (o, s.inc) :: s.launches, alive := o :: s.alive.filter (· != o) }
   | .joblog o => s.updMeta o (fun m => toDisk .log (unq m))
-  | .jobend o x => s.updMeta o (toDisk x)
-  | .silentfail o => s.updMeta o (put .errors)
+  | .jobend o x => { s.updMeta o (toDisk x) with alive := s.alive.filter (· != o) }
+  | .silentfail o => { s.updMeta o (put .errors) with alive := s.alive.filter (· != o) }
   | .refresh => { s with phase := .normal }
   | .stepend => s
   | .nodestate n st => { s with cached := aset s.cached n st }
-  | .killed _ => s
+  | .killed o => { s with alive := s.alive.filter (· != o) }
   | .crash => { s with phase := .crashed }
   | .restart =>
       let s' : State := { s with phase := .loading, inc := s.inc + 1, metas := amap reload s.metas }
       { s' with wipedAtLoad := (List.range s.nodes.length).filter fun n =>
           nodeState s' n == .failed || nodeState s' n == .running }
-  | .reset o => { s.updMeta o (fun _ => {}) with resets := (o, s.inc) :: s.resets }
+  | .reset o =>
+      { s.updMeta o (fun _ => ({} : Meta)) with
+        resets := (o, s.inc) :: s.resets, alive := s.alive.filter (· != o) }
 
 /-- one step: the event must be enabled -/
 def step (s : State) (e : Ev) : Option State :=
@@ -493,6 +512,20 @@ inductive Reach (g : List NodeInfo) : State → Prop where
 inductive ReachFull (g : List NodeInfo) : State → Prop where
   | init : ReachFull g (initFull g)
   | step {s e} : ReachFull g s → enabled s e = true → ReachFull g (apply s e)
+
+/-- events of a run without failures and without interruption -/
+def Ev.failureFree : Ev → Bool
+  | .jobend _ x => x == .complete
+  | .silentfail _ => false
+  | .W _ x => x != Sentinel.errors && x != Sentinel.assert
+  | .crash => false
+  | .restart => false
+  | .reset _ => false
+  | .killed _ => false   -- a job that dies without a trace
+  | _ => true
+
+def FailureFree (h : List Ev) : Prop := ∀ e ∈ h, e.failureFree = true
+
 
 /-! ## printing (driver) -/
 
